@@ -402,6 +402,8 @@ def expected_bindings(spec):
     if k == 'counter':
         d = spec[2] - (spec[3] or 0)
         return [('KMinus' if d < 0 else 'KPlus', abs(d))]
+    if k in ('list', 'set') and spec[3] and spec[2] is not None and spec[2] != spec[4] and not spec[2][1]:
+        return []          # adding / removing nothing requests nothing (UpdateStatement.add_update drops such clauses)
     if k == 'list' and spec[3] and spec[2] is not None and spec[2] != spec[4]:
         return [('KPlus' if spec[3] == 'append' else 'KPrepend', spec[2])]
     if k == 'set' and spec[3] and spec[2] is not None and spec[2] != spec[4]:
